@@ -14,6 +14,7 @@ import PM.Structure
 import Proofs.StepToks
 import Proofs.Respects
 import Proofs.Structure
+import Proofs.RangeOps
 namespace PM.C18
 open PM
 
@@ -298,5 +299,97 @@ theorem canSplit_stays_inside (S : Schema) (doc : Node) (pos depth : Nat) (r : R
   refine ⟨hkb, r.start (r.depth - depth + 1) - 1, r.end_ (r.depth - depth + 1) + 1,
     R.before_eq _ (by omega) (by omega), R.after_eq _ (by omega) (by omega), ?_, ?_, ?_, ?_⟩
   all_goals omega
+
+/-! ## `delete_range` (model PM/RangeOps.lean, tied exactly) -/
+
+/-- **`delete_range` never widens a range beyond an isolating node that contains both ends**:
+    if the depth-`k` ancestor of `from` (or of `to`) is isolating and it is the same node for both
+    positions (same content start), the pair `(f', t')` handed to `delete` contains `[f, t]` and
+    lies within that node's content window `[start(k), end(k)]` -/
+theorem deleteRange_inside_isolating (S : Schema) (doc : Node) (f t f' t' : Nat) (rf rt : RPos)
+    (hf : doc.resolve f = some rf) (ht : doc.resolve t = some rt)
+    (h : deleteRangeTarget S doc f t = some (f', t'))
+    (k : Nat) (hkf : k ≤ rf.depth) (hkt : k ≤ rt.depth)
+    (hiso : S.isolating (rf.node k) = true ∨ S.isolating (rt.node k) = true)
+    (hsame : rf.start k = rt.start k) :
+    rf.node k = rt.node k ∧ rf.end_ k = rt.end_ k ∧
+    rf.start k ≤ f' ∧ f' ≤ f ∧ t ≤ t' ∧ t' ≤ rf.end_ k := by
+  have Rf := resolve_resolved hf
+  have Rt := resolve_resolved ht
+  have pf := Rf.pos_in k hkf
+  have pt := Rt.pos_in k hkt
+  obtain ⟨hn, _, he, _⟩ := same_ancestors Rf Rt k (rf.start k) hkf hkt (Nat.le_refl _) (by omega)
+    (by omega) (by omega) k (Nat.le_refl _)
+  simp only [deleteRangeTarget, hf, ht] at h
+  -- a reported covered depth is strictly below the isolating ancestor
+  have below : ∀ d ∈ coveredDepthsR S rf rt, k < d := by
+    intro d hd
+    obtain ⟨_, _, h3⟩ := coveredLoop_mem S rf rt _ d hd
+    rcases Nat.lt_or_ge k d with hlt | hge
+    · exact hlt
+    · have hb := h3 k hge (by omega)
+      rw [coveredBreak_of_isolating S rf rt k hiso] at hb
+      exact absurd hb (by simp)
+  refine ⟨hn, he, ?_⟩
+  rcases deleteRangeTargetR_cases S Rf Rt f' t' h with
+    ⟨d, hm, rfl, rfl⟩ | ⟨d, hm, h1, rfl, rfl⟩ | ⟨d, h1, hdf, hdt, hfd, hlt, rfl, rfl⟩ | ⟨rfl, rfl⟩
+  · obtain ⟨hdf, hdt, hfd, htd⟩ := covered_tight S Rf Rt d hm
+    have hkd := below d hm
+    have nf := Rf.nestW k d (by omega) hdf
+    have nt := Rt.nestW k d (by omega) hdt
+    omega
+  · obtain ⟨hdf, hdt, hfd, htd⟩ := covered_tight S Rf Rt d hm
+    have hkd := below d hm
+    have nf := Rf.nestW k d (by omega) hdf
+    have nt := Rt.nestW k d (by omega) hdt
+    omega
+  · have hkd : k < d := by
+      rcases Nat.lt_or_ge k d with hlt' | hge
+      · exact hlt'
+      · have := Rf.nestW d k hge hkf
+        omega
+    have nf := Rf.nestW k d (by omega) hdf
+    omega
+  · omega
+
+/-- … with the node's own positions: an isolating node (not the root) occupying `[a, b)` —
+    `a = start(k) − 1` its open token, `b − 1 = end(k)` its close token — has `a < f'` and `t' < b`,
+    i.e. any replace step on the widened range satisfies the monitor `insideNode a b`, so
+    `inside_preserves_outside` applies to it without a monitored hypothesis on the range -/
+theorem deleteRange_insideNode (S : Schema) (doc : Node) (f t f' t' : Nat) (rf rt : RPos)
+    (hf : doc.resolve f = some rf) (ht : doc.resolve t = some rt) (hft : f ≤ t)
+    (h : deleteRangeTarget S doc f t = some (f', t'))
+    (k : Nat) (hk1 : 1 ≤ k) (hkf : k ≤ rf.depth) (hkt : k ≤ rt.depth)
+    (hiso : S.isolating (rf.node k) = true ∨ S.isolating (rt.node k) = true)
+    (hsame : rf.start k = rt.start k) (sl : Slice) (c : Bool) :
+    rf.start k - 1 < f' ∧ t' < rf.end_ k + 1 ∧
+    insideNode (rf.start k - 1) (rf.end_ k + 1) (.replace f' t' sl c) = true := by
+  obtain ⟨_, _, h1, h2, h3, h4⟩ :=
+    deleteRange_inside_isolating S doc f t f' t' rf rt hf ht h k hkf hkt hiso hsame
+  have hs : 1 ≤ rf.start k := by
+    obtain ⟨j, rfl⟩ : ∃ j, k = j + 1 := ⟨k - 1, by omega⟩
+    rw [Resolved.start_succ]; omega
+  refine ⟨by omega, by omega, ?_⟩
+  simp only [insideNode, Bool.and_eq_true, decide_eq_true_eq]
+  omega
+
+/-- the hypotheses are satisfiable and the widening reaches the boundary: in
+    `doc(iso(p("ab")), p("c"))` (`p` content `text+`, `iso` isolating, occupying `[0, 6)`),
+    `delete_range(2, 4)` — the whole text of the inner paragraph — is handed to `delete` as `(1, 5)`,
+    exactly the content window of `iso`, and no further -/
+example :
+    let nt (name : String) (isText inl iso : Bool) (dfa : Array DfaState) : NodeType :=
+      { name := name, isText := isText, isInline := isText, isLeaf := isText, isAtom := isText,
+        inlineContent := inl, isolating := iso, defining := false, code := false,
+        dfa := dfa, markSet := none, attrs := [] }
+    let S : Schema := { nodes := #[nt "doc" false false false #[⟨false, [(1, 1), (3, 1)]⟩, ⟨true, [(1, 1), (3, 1)]⟩],
+                                   nt "paragraph" false true false #[⟨false, [(2, 1)]⟩, ⟨true, [(2, 1)]⟩],
+                                   nt "text" true false false #[⟨true, []⟩],
+                                   nt "iso" false false true #[⟨false, [(1, 1)]⟩, ⟨true, [(1, 1)]⟩]],
+                        marks := #[], top := 0, textTy := 2 }
+    let doc := Node.elem 0 [] [] [.elem 3 [] [] [.elem 1 [] [] [.text [97, 98] []]], .elem 1 [] [] [.text [99] []]]
+    deleteRangeTarget S doc 2 4 = some (1, 5) ∧
+    (doc.resolve 2).map (fun r => (r.depth, r.start 1, r.end_ 1, S.isolating (r.node 1))) = some (2, 1, 5, true) ∧
+    (doc.resolve 4).map (fun r => (r.depth, r.start 1, r.end_ 1)) = some (2, 1, 5) := by decide
 
 end PM.C18
